@@ -64,11 +64,15 @@ impl VarFile {
     //
     #[inline]
     pub fn sync_all(&mut self) -> Result<()> {
+        #[cfg(abyssiniandb_verif)]
+        super::verif::io_trace(self.buf_file.name(), "sync_all");
         self.buf_file.sync_all()
     }
     //
     #[inline]
     pub fn sync_data(&mut self) -> Result<()> {
+        #[cfg(abyssiniandb_verif)]
+        super::verif::io_trace(self.buf_file.name(), "sync_data");
         self.buf_file.sync_data()
     }
     //
@@ -129,6 +133,8 @@ impl VarFile {
     //
     #[inline]
     pub fn set_file_length<T>(&mut self, file_length: Offset<T>) -> Result<()> {
+        #[cfg(abyssiniandb_verif)]
+        super::verif::io_trace(self.buf_file.name(), "set_len");
         self.buf_file.set_len(file_length.into())
     }
     #[inline]
@@ -212,10 +218,14 @@ impl Read for VarFile {
 impl Write for VarFile {
     #[inline]
     fn write(&mut self, buf: &[u8]) -> Result<usize> {
+        #[cfg(abyssiniandb_verif)]
+        super::verif::io_trace(self.buf_file.name(), "write");
         self.buf_file.write(buf)
     }
     #[inline]
     fn flush(&mut self) -> Result<()> {
+        #[cfg(abyssiniandb_verif)]
+        super::verif::io_trace(self.buf_file.name(), "flush");
         self.buf_file.flush()
     }
 }
